@@ -1,7 +1,9 @@
-//! C03: not implemented yet.
+//! C03: every counterexample returned by `patronus::mc::bmc` is a real execution.
+//! Same runner and case format as C02 (see c02.rs), restricted to systems that have a counterexample
+//! within the bound, each run under several solver profiles and model-diversity settings
+//! (z3 random seeds / phase selection through the shims' command line, and cvc5).
 use crate::util::Args;
 
-pub fn run(_args: &Args) {
-    eprintln!("C03: harness module not implemented yet");
-    std::process::exit(2);
+pub fn run(args: &Args) {
+    crate::c02::run_mc(args, true);
 }
